@@ -138,13 +138,19 @@ def point_desc(draw, allow_fraction=True, min_points=1, max_points=12, desorptio
     if meta:
         d["meta"] = draw(st.dictionaries(st.sampled_from(["user", "machine", "iso_type", "comment", "k1"]), _meta_values,
                                          max_size=3))
-    kinds = ["supercritical", "no_density", "no_molar_mass", "no_backend"]
+    kinds = ["supercritical", "no_density", "no_molar_mass", "no_backend", "user_constants", "user_constants"]
     n_none = max(1, round(len(kinds) * (1 - handicap) / handicap)) if handicap else 0
     kind = draw(st.sampled_from([None] * n_none + kinds)) if handicap else None
     if kind is not None:
         d["handicap"] = kind
         if kind == "no_backend":
             d["adsorbate"] = "verif-unknown-gas"
+        elif kind == "user_constants":
+            # no backend, but the constants supplied by the user (documented fallback): [p_sat Pa, M g/mol, liquid and
+            # vapour molar density mol/cm3]
+            d["adsorbate"] = "verif-user-gas"
+            d["user_fluid"] = [draw(st.floats(1e3, 5e6)), draw(st.floats(2.0, 300.0)), draw(st.floats(1e-3, 0.08)),
+                               draw(st.floats(1e-6, 5e-4))]
         elif kind == "supercritical":
             entry = next(e for e in K.backend_table() if e[0] == d["adsorbate"])
             d["T_K"] = entry[3] * 1.3
